@@ -104,35 +104,35 @@ type UserProp struct{ K, V string }
 // absent. For binary data, presence is tracked by the separate Has* bools
 // (a present, zero length binary value is legal and distinct from absent).
 type Props struct {
-	PayloadFormat        *byte    // 0x01
-	MessageExpiry        *uint32  // 0x02
-	ContentType          *string  // 0x03
-	ResponseTopic        *string  // 0x08
-	CorrelationData      []byte   // 0x09
-	HasCorrelationData   bool     //
-	SubscriptionIDs      []uint32 // 0x0B; may repeat in PUBLISH (server->client)
-	SessionExpiry        *uint32  // 0x11
-	AssignedClientID     *string  // 0x12
-	ServerKeepAlive      *uint16  // 0x13
-	AuthMethod           *string  // 0x15
-	AuthData             []byte   // 0x16
-	HasAuthData          bool     //
-	RequestProblemInfo   *byte    // 0x17
-	WillDelay            *uint32  // 0x18
-	RequestResponseInfo  *byte    // 0x19
-	ResponseInfo         *string  // 0x1A
-	ServerReference      *string  // 0x1C
-	ReasonString         *string  // 0x1F
-	ReceiveMax           *uint16  // 0x21
-	TopicAliasMax        *uint16  // 0x22
-	TopicAlias           *uint16  // 0x23
-	MaximumQoS           *byte    // 0x24
-	RetainAvailable      *byte    // 0x25
+	PayloadFormat        *byte      // 0x01
+	MessageExpiry        *uint32    // 0x02
+	ContentType          *string    // 0x03
+	ResponseTopic        *string    // 0x08
+	CorrelationData      []byte     // 0x09
+	HasCorrelationData   bool       //
+	SubscriptionIDs      []uint32   // 0x0B; may repeat in PUBLISH (server->client)
+	SessionExpiry        *uint32    // 0x11
+	AssignedClientID     *string    // 0x12
+	ServerKeepAlive      *uint16    // 0x13
+	AuthMethod           *string    // 0x15
+	AuthData             []byte     // 0x16
+	HasAuthData          bool       //
+	RequestProblemInfo   *byte      // 0x17
+	WillDelay            *uint32    // 0x18
+	RequestResponseInfo  *byte      // 0x19
+	ResponseInfo         *string    // 0x1A
+	ServerReference      *string    // 0x1C
+	ReasonString         *string    // 0x1F
+	ReceiveMax           *uint16    // 0x21
+	TopicAliasMax        *uint16    // 0x22
+	TopicAlias           *uint16    // 0x23
+	MaximumQoS           *byte      // 0x24
+	RetainAvailable      *byte      // 0x25
 	User                 []UserProp // 0x26
-	MaxPacketSize        *uint32  // 0x27
-	WildcardSubAvailable *byte    // 0x28
-	SubIDAvailable       *byte    // 0x29
-	SharedSubAvailable   *byte    // 0x2A
+	MaxPacketSize        *uint32    // 0x27
+	WildcardSubAvailable *byte      // 0x28
+	SubIDAvailable       *byte      // 0x29
+	SharedSubAvailable   *byte      // 0x2A
 }
 
 // Will is the will message of a CONNECT packet.
@@ -279,8 +279,8 @@ func IsMalformed(err error) bool {
 const MaxVarInt = 268435455
 
 // AppendVarInt appends the minimal variable byte integer encoding of x.
-// x must be <= MaxVarInt (larger values are encoded modulo 2^28 after
-// saturating; callers in this package check before calling).
+// x must be <= MaxVarInt; larger values are clamped to MaxVarInt (callers in
+// this package check the range before calling).
 func AppendVarInt(dst []byte, x uint32) []byte {
 	if x > MaxVarInt {
 		x = MaxVarInt
